@@ -277,6 +277,55 @@ def _chunk(records):
     return st, spec_bad, bad, known
 
 
+# Constant expressions outside the grammar of ConstEval.tla; CPython decides them directly (the hybrid oracle):
+# keyword arguments on constant-receiver methods and builtins, exceptions other than the arithmetic / type ones,
+# starred displays, formatting, slices.
+EXTRA_EXPRS = [
+    '"a,b,c".split(",", maxsplit=1)', '"a,b,c".split(",", 1)', '"a b".split(sep=" ")', '"".encode(encoding="utf-16")', '"x".encode("ascii")',
+    'b"ab".decode(encoding="ascii")', '"abc".center(7, "*")', '"x".ljust(width=3)', '(255).to_bytes(length=2, byteorder="big")',
+    '(255).to_bytes(2, "little")', '"{a}".format(a=1)', '"{}-{}".format(1, 2)', 'int("ff", base=16)', 'int("ff", 16)', 'round(2.567, ndigits=1)',
+    'sorted([3, 1], reverse=True)', 'max([1, -2], key=abs)', 'min(3, 1, key=lambda v: -v)', '"a".join(["x", "y"])', 'sum([1, 2], start=10)',
+    'sum([1, 2], 10)', 'len("abc")', 'len((2, 2))', 'len([2, 0, 1])', 'sum((2, 2))', 'max((2, 5))', 'list(range(2, 8, 3))', 'divmod(7, -2)',
+    'pow(2, 5, mod=7)', 'str(b"a", encoding="ascii")', 'bytes("a", encoding="ascii")', '"abc".startswith(("a", "x"))', '"abc".replace("b", "", 1)',
+    '"a\\tb".expandtabs(tabsize=2)', '"Ab".swapcase()', '"a-b".partition("-")', '" x ".strip()', '"x".zfill(3)', '"abc"[::-1]', '"abc"[1:]', '[1, 2, 3][-1]',
+    '(1, 2)[0:1]', '{"k": 1}["k"]', '{"k": 1}.get("z", 2)', '{1, 2} & {2}', '[1] * 2', '"ab" * 0', '1 if [] else 2', '"{} {}".format("a")',
+    '"%(a)s" % {}', '"%d" % "x"', '"x".encode("utf-42")', '[1][5]', '{}["k"]', 'int("x")', '(1).foo', 'next(iter([]))', '"abc".index("z")',
+    'float("nan") == float("nan")', '1 / 0 == 1 / 0', '(1 / 0) or 1', '[*[]]', '(*(),)', '[*[], *()]', '{*[]}', '[*[1]]', 'bool([*[]])',
+    'not [*()]', '[*[]] or [1]', '(*[],) and 2', '2 ** -1', '0 ** 0', '-7 // 2', '-7 % 3', '7 % -3', '1_000 + 1', '0x10', '1e3', '1j * 1j',
+    'True + True', '"a" < "b" < "c"', '1 < 2 > 0', '1 == 1.0', '"1" == 1', 'None is None', '() is ()', 'not None', '"a" in "abc"', '1 in [1]',
+    '[] == ()', 'chr(97)', 'ord("a")', 'abs(-2)', 'bool("")', 'tuple([1])', 'dict(a=1)', 'dict([("a", 1)])', 'set([1, 1])', 'frozenset({1})',
+    'repr("a")', 'ascii("\\xe9")', 'hex(255)', 'bin(5)', 'oct(8)', 'format(5, "03d")', 'format(5, fmt="03d")' if False else 'format(3.14159, ".2f")',
+    'all([])', 'any([0, ""])', 'isinstance(1, int)', 'callable(len)', 'type(1) is int', 'hash(1)', 'id(1) == id(1)',
+]
+
+
+def extra_part(rep: Report, stats: Dict[str, int]):
+    mods = import_pyrefact()
+    core = mods["core"]
+    for text in EXTRA_EXPRS:
+        try:
+            ast.parse(text, mode="eval")
+        except SyntaxError:
+            raise MachineryError(f"extra expression does not parse: {text}")
+        stats["cases"] = stats.get("cases", 0) + 1
+        stats["extra_exprs"] = stats.get("extra_exprs", 0) + 1
+        ideal = python_outcome(text)
+        got = code_outcome(core, text)
+        case = {"expr": text, "python": [ideal[0], repr(ideal[1])], "literal_value": [got[0], repr(got[1])], "impl_model": "oom"}
+        if got[0] == "unknown":
+            continue
+        if ideal[0] == "val":
+            if got[0] == "val" and same(got[1], ideal[1]):
+                stats["code_val"] = stats.get("code_val", 0) + 1
+                continue
+            rep.violation(f"{'wrong value' if got[0] == 'val' else 'crash or effect on a constant'}: {text} python={case['python']} "
+                          f"literal_value={case['literal_value']}", case)
+        elif got[0] == "val":
+            rep.violation(f"value for an expression that raises / has an effect: {text} python={case['python']} literal_value={case['literal_value']}", case)
+        else:
+            rep.violation(f"exception escapes literal_value / effect during analysis: {text} -> {case['literal_value']}", case)
+
+
 def main(argv=None) -> int:
     rep = Report(PROP, "model_checking")
     import_pyrefact()
@@ -316,6 +365,7 @@ def main(argv=None) -> int:
         for r in recs[:: max(1, len(recs) // 3)]:
             rep.sample({"expr": render(r["e"]), "spec_python": r["py"], "spec_impl": r["impl"]}, limit=6)
 
+    extra_part(rep, stats)
     import c15_consumers
     c15_consumers.run(rep, t, stats)
 
